@@ -16,7 +16,7 @@ UNPROVED = ["quadratic: 'the point coincides within 1e-6' follows from quad_tOfP
             "cubic: accuracy 2 % of the length (coarse search) — sampled", "float residuals of the line formula (sampled: 1e-9 relative)"]
 ASSUMPTIONS = ["math.sqrt real", "the cubic's sample list lies in [0,1] (C16: walk_mem)"]
 LEVEL_TEXT = ("theorems: line_tOfPoint_inverse (regenerated Line.tOfPoint returns exactly t for the point at t, for every real t, unless the line is degenerate in both coordinates), "
-              "line_off_carrier (-1 when every carrier point is >= 2e-7 away), quad_tOfPoint_root (a result other than -1 is a root in [0,1] of the x-equation within 2e-7 of a "
+              "line_off_carrier (-1 when every carrier point is >= 2e-7 away), quad_tOfPoint_complete (real arithmetic: the quadratic lookup of the curve's own point at any t in [0,1] never answers -1 unless a coordinate is constant along the curve: rootsOrDouble_complete, F29), quad_tOfPoint_root (a result other than -1 lies in [0,1] and solves the x-equation up to the residual of rootsOrDouble_spec, within 2e-7 of a "
               "root in [0,1] of the y-equation; built on quadraticRoots_mem_iff), matchRoots_complete, quad_constant_coordinate_counterexample (K5), cubic_tOfPoint_range / cubic_tOfPointFull_range (unconditional since F23: the regular samples are merged with a 65-point grid; mem_mergeGrid, grid_dense, bestSample_le) "
               "(the coarse search with the repaired halving loop answers in [0,1] for every non-empty sample list and every distance function)")
 LEVEL_NOTE = "trusted: Lean kernel + Mathlib, axioms {propext, Classical.choice, Quot.sound}, translator, hand models of the quadratic/cubic lookups (correspondence per run)"
